@@ -8,6 +8,7 @@
 //            4 = seeded yields at lock / marker / yield sites
 //            8 = "first DOM operation" run: every thread starts with a private DOM build (F16 probe)
 //           16 = every thread starts with a parse on the shared locked pool (first use of the cached grammar contended)
+//           64 = burst: the first shared-pool parse of every thread introduces ceil(160/N) namespace URIs never seen before
 //           32 = every thread starts by compiling the regular expressions whose category complements are created lazily
 //   output:
 //     D <tid> <h1>,<h2>,...      per-thread, per-item result digests (must equal those of `seq`)
@@ -28,6 +29,10 @@
 #include <thread>
 #include <algorithm>
 #include <sched.h>
+#include <clocale>
+#include <dlfcn.h>
+#include <unicode/ucnv.h>
+#include <xercesc/framework/psvi/PSVIHandler.hpp>
 #include <unistd.h>
 #include <xercesc/util/XercesVerif.hpp>
 #include <xercesc/util/Mutexes.hpp>
@@ -40,6 +45,7 @@
 #include <xercesc/util/StringPool.hpp>
 #include <xercesc/sax2/SAX2XMLReader.hpp>
 #include <xercesc/sax2/XMLReaderFactory.hpp>
+#include <xercesc/parsers/SAX2XMLReaderImpl.hpp>
 #include <xercesc/sax2/DefaultHandler.hpp>
 #include <xercesc/sax2/Attributes.hpp>
 #include <xercesc/sax/SAXParseException.hpp>
@@ -152,6 +158,70 @@ static void onEvent(int kind, const char* name, const void* inst, const void* mu
     maybeYield();
 }
 
+// ------------------------------------------------------------------ ICU boundary (interposition)
+// The process-wide local-code-page converter is used through ucnv_fromUChars / ucnv_toUChars only.  The harness
+// interposes these two entry points (the executable's definition wins over libicuuc's for calls made by
+// libxerces-c) and treats every call as a write access to the resource "ICU.UConverter@<converter>", whether or
+// not the calling xerces code carries a hook marker.  Recording flavour: an access event whose guard is inferred
+// Eraser-style (the mutex held in most accesses; none => mutex 0, which nobody holds); a converter used by one
+// thread only is dropped from the trace.  TSan flavour: a plain write to a shadow cell, so that two calls not
+// ordered by happens-before are reported by ThreadSanitizer with the xerces caller in the stack.
+#define HX_STR2(x) #x
+#define HX_STR(x) HX_STR2(x)
+static std::map<int, std::map<int, long>> gIcuHeldHist;     // resource id -> mutex id -> number of accesses holding it
+static std::map<int, std::map<int, long>> gIcuThreads;      // resource id -> thread -> accesses
+static volatile char gIcuShadow[64];
+
+static void converterAccess(const void* cnv) {
+#ifdef HX_TSAN
+    gIcuShadow[((uintptr_t)cnv >> 6) & 63] = (char)tlTid;
+#else
+    if (gRecording) {
+        std::lock_guard<std::mutex> g(gRecMx);
+        auto key = std::make_pair(std::string("ICU.UConverter"), cnv);
+        int id;
+        auto it = gResId.find(key);
+        if (it == gResId.end()) {
+            id = (int)gResId.size() + 1; gResId[key] = id;
+            char b[64]; snprintf(b, sizeof b, "@%p", cnv);
+            gResName.push_back(std::string("ICU.UConverter") + b);
+            gResGuard[id] = 0;
+        } else id = it->second;
+        gIcuThreads[id][tlTid]++;
+        bool any = false;
+        if (tlDepth) for (auto& d : *tlDepth) if (d.second > 0) { gIcuHeldHist[id][mutexIdLocked(d.first)]++; any = true; }
+        if (!any) gIcuHeldHist[id][0]++;
+        gEvents.push_back({'W', tlTid, id});
+    }
+#endif
+    maybeYield();
+}
+
+extern "C" int32_t ucnv_fromUChars(UConverter* cnv, char* dest, int32_t destCapacity, const UChar* src, int32_t srcLength, UErrorCode* pErrorCode) {
+    typedef int32_t (*Fn)(UConverter*, char*, int32_t, const UChar*, int32_t, UErrorCode*);
+    static Fn real = (Fn)dlsym(RTLD_NEXT, HX_STR(ucnv_fromUChars));
+    converterAccess(cnv);
+    return real(cnv, dest, destCapacity, src, srcLength, pErrorCode);
+}
+extern "C" int32_t ucnv_toUChars(UConverter* cnv, UChar* dest, int32_t destCapacity, const char* src, int32_t srcLength, UErrorCode* pErrorCode) {
+    typedef int32_t (*Fn)(UConverter*, UChar*, int32_t, const char*, int32_t, UErrorCode*);
+    static Fn real = (Fn)dlsym(RTLD_NEXT, HX_STR(ucnv_toUChars));
+    converterAccess(cnv);
+    return real(cnv, dest, destCapacity, src, srcLength, pErrorCode);
+}
+
+// resolve the inferred guards of interposed resources; returns ids of resources to drop (single-threaded use)
+static std::vector<int> resolveIcuGuards() {
+    std::vector<int> drop;
+    for (auto& r : gIcuThreads) {
+        if (r.second.size() < 2) { drop.push_back(r.first); continue; }
+        int best = 0; long bestN = -1;
+        for (auto& h : gIcuHeldHist[r.first]) if (h.first != 0 && h.second > bestN) { best = h.first; bestN = h.second; }
+        gResGuard[r.first] = best;
+    }
+    return drop;
+}
+
 // ------------------------------------------------------------------ small helpers
 static std::string utf8(const XMLCh* s) {
     std::string r; if (!s) return "(null)";
@@ -243,6 +313,15 @@ public:
     void fatalError(const SAXParseException& e) override { rep("FATAL", e); }
 };
 
+// reads the namespace URI the scanner hands to the PSVI callbacks (XMLStringPool::getValueForId on the URI pool)
+class PsviRec : public PSVIHandler {
+public:
+    std::string out;
+    void handleElementPSVI(const XMLCh* const local, const XMLCh* const uri, PSVIElement*) override { out += "pe(" + utf8(uri) + "|" + utf8(local) + ")"; }
+    void handlePartialElementPSVI(const XMLCh* const local, const XMLCh* const uri, PSVIElement*) override { out += "pp(" + utf8(uri) + "|" + utf8(local) + ")"; }
+    void handleAttributesPSVI(const XMLCh* const local, const XMLCh* const uri, PSVIAttributeList*) override { out += "pa(" + utf8(uri) + "|" + utf8(local) + ")"; }
+};
+
 // ------------------------------------------------------------------ the shared, locked grammar pool
 static XMLGrammarPool* gPool = nullptr;      // shared by the parsers of all threads
 static XMLGrammarPool* gPool2 = nullptr;     // its synchronized string pool is driven directly (complete operation history)
@@ -311,13 +390,30 @@ static void configSchema(SAX2XMLReader* p, int scheme) {
     p->setFeature(XMLUni::fgXercesUseCachedGrammarInParse, true);
 }
 
+static thread_local bool tlBurstDone = false;
+static int gThreads = 1;
 static std::string itemSaxSchema(hx::Rng& r, int tid, bool shared) {
     int scheme = (int)r.below(3);
     std::vector<std::string> docs; for (uint64_t i = 1 + r.below(3); i > 0; i--) docs.push_back(genSchemaDoc(r, tid));
+    if (shared && (gFlags & 64) && !tlBurstDone) {
+        // burst: namespace URIs no thread has used before, enough across the threads to make the synchronized pool's
+        // id index grow several times (capacity 64, 96, 144, ...) while other threads look ids up
+        tlBurstDone = true;
+        scheme = 2;
+        int k = (160 + gThreads - 1) / gThreads;
+        std::string d = "<r xmlns='urn:root'>";
+        for (int i = 0; i < k; i++) {
+            std::string uri = "urn:burst:t" + std::to_string(tid) + ":" + std::to_string(i);
+            d += "<x:e xmlns:x='" + uri + "' x:a='1'><x:f>v</x:f></x:e>";
+        }
+        d += "</r>";
+        docs.insert(docs.begin(), d);
+    }
     return guarded([&] {
         MemoryManager* mm = XMLPlatformUtils::fgMemoryManager;
         SAX2XMLReader* p = shared ? XMLReaderFactory::createXMLReader(mm, gPool) : XMLReaderFactory::createXMLReader();
         Rec h; p->setContentHandler(&h); p->setErrorHandler(&h);
+        PsviRec ph; static_cast<SAX2XMLReaderImpl*>(p)->setPSVIHandler(&ph);
         std::string res;
         try {
             configSchema(p, scheme);
@@ -327,7 +423,7 @@ static std::string itemSaxSchema(hx::Rng& r, int tid, bool shared) {
             }
             for (auto& d : docs) {
                 MemBufInputSource src((const XMLByte*)d.data(), d.size(), "mem:doc");
-                p->parse(src); h.flush(); res += h.out + "#"; h.out.clear();
+                p->parse(src); h.flush(); res += h.out + "#" + digest(ph.out) + "#"; h.out.clear(); ph.out.clear();
             }
         } catch (...) { delete p; throw; }
         delete p;
@@ -500,6 +596,31 @@ static std::string itemTranscode(hx::Rng& r) {
     });
 }
 
+// XMLString::transcode in both directions on CJK / supplementary / Latin-1 text long enough that, with a multi-byte
+// local code page, the 1.25 x length first estimate overflows and the retry path is taken
+static std::string miniTranscode(hx::Rng& r) {
+    return guarded([&] {
+        std::basic_string<XMLCh> w;
+        size_t n = 24 + (size_t)r.below(120);
+        uint64_t kind = r.below(4);
+        for (size_t i = 0; i < n; i++) {
+            uint64_t k = kind == 3 ? r.below(3) : kind;
+            if (k == 0) w += (XMLCh)(0x4E00 + r.below(0x5000));                                   // CJK: 3 bytes each
+            else if (k == 1) { uint32_t c = 0x10000 + (uint32_t)r.below(0x30000);                 // supplementary: 4 bytes per pair
+                               w += (XMLCh)(0xD800 + ((c - 0x10000) >> 10)); w += (XMLCh)(0xDC00 + ((c - 0x10000) & 0x3FF)); }
+            else w += (XMLCh)(0xA1 + r.below(0x5E));                                              // Latin-1: 2 bytes each
+        }
+        char* bytes = XMLString::transcode(w.c_str());
+        std::string b(bytes ? bytes : "(null)");
+        XMLCh* back = bytes ? XMLString::transcode(bytes) : nullptr;
+        std::string res = "mt:" + std::to_string(n) + ":" + digest(b) + ":" + std::to_string(b.size()) + ":"
+                        + (back ? (std::basic_string<XMLCh>(back) == w ? "rt" : "DIFF" + digest(utf8(back))) : "null");
+        if (bytes) XMLString::release(&bytes);
+        if (back) XMLString::release(&back);
+        return res;
+    });
+}
+
 static std::string itemMessages(hx::Rng& r) {
     std::string res = "msg:";
     static const char* bad[] = { "::bad", "http://[", "1ab:x", "http://a b/", "" };
@@ -545,6 +666,7 @@ static std::string itemPoolOps(hx::Rng& r, int tid) {
 static std::vector<std::string> runWorkload(int tid, int items) {
     hx::Rng r(gSeed * 7919 + (uint64_t)tid * 104729 + 13);
     std::vector<std::string> hs;
+    tlBurstDone = false;
     bool shared = (gFlags & 1) != 0;
     for (int i = 0; i < items; i++) {
         std::string res;
@@ -567,6 +689,7 @@ static std::vector<std::string> runWorkload(int tid, int items) {
             case 9: case 10: res = itemSaxSchema(ir, tid, true); break;
             default: res = itemPoolOps(ir, tid); break;
         }
+        res += "|" + miniTranscode(ir);
         if (getenv("HX_THR_VERBOSE")) fprintf(stderr, "t%d i%d %s\n", tid, i, res.c_str());
         hs.push_back(digest(res));
     }
@@ -578,11 +701,15 @@ int main(int argc, char** argv) {
     std::string mode = argv[1];
     gSeed = strtoull(argv[2], 0, 10);
     int n = atoi(argv[3]), items = atoi(argv[4]);
+    gThreads = n > 0 ? n : 1;
     gFlags = atoi(argv[5]);
     int timeoutS = argc > 6 ? atoi(argv[6]) : 120;
 #ifdef HX_TSAN
     gFlags &= ~2;
 #endif
+    // a multi-byte local code page: XMLString::transcode of non-ASCII text then overflows its first size estimate
+    // and takes the retry path of ICULCPTranscoder::transcode
+    if (!setlocale(LC_ALL, "C.UTF-8") && !setlocale(LC_ALL, "C.utf8")) fprintf(stderr, "hx_thr: no UTF-8 locale\n");
     XMLPlatformUtils::Initialize();
     RecordingMutexMgr* rec = nullptr;
     XMLMutexMgr* orig = XMLPlatformUtils::fgMutexMgr;
@@ -638,12 +765,17 @@ int main(int argc, char** argv) {
         printf("\n");
     }
     if (mode == "conc" && (gFlags & 2)) {
+        std::vector<int> drop = resolveIcuGuards();
+        auto dropped = [&](int id) { return std::find(drop.begin(), drop.end(), id) != drop.end(); };
         std::string line = "TRACE T";
-        for (auto& g : gResGuard) line += " " + std::to_string(g.first) + "=" + std::to_string(g.second);
+        for (auto& g : gResGuard) if (!dropped(g.first)) line += " " + std::to_string(g.first) + "=" + std::to_string(g.second);
         line += " |";
         for (auto& g : gSiteGuard) line += " " + std::to_string(g.first) + "=" + std::to_string(g.second);
         line += " |";
-        for (auto& e : gEvents) { char b[48]; snprintf(b, sizeof b, " %c.%d.%d", e.k, e.t, e.x); line += b; }
+        for (auto& e : gEvents) {
+            if ((e.k == 'R' || e.k == 'W') && dropped(e.x)) continue;
+            char b[48]; snprintf(b, sizeof b, " %c.%d.%d", e.k, e.t, e.x); line += b;
+        }
         printf("%s\n", line.c_str());
         printf("LEGEND");
         for (size_t i = 0; i < gResName.size(); i++) printf(" r%zu=%s", i + 1, gResName[i].c_str());
